@@ -1,4 +1,925 @@
-//! C08 — not built yet.
+//! C08 — custom-operation instantiation is total and meaning-preserving.
+//! (1) catalogue injectivity: every CustomOperationBody of the crate over a parameter grid,
+//!     op1 != op2 => get_name(op1) != get_name(op2)                       (native oracle, exhaustive)
+//! (2) pass correspondence: run_instantiation_pass on generated contexts vs Model/Instantiate.v
+//!     instantiated on the catalogue table exported for the case            (Coq cases)
+//! (3) semantics: the instantiated context evaluated as a whole vs every step evaluated on
+//!     its own (one-operation contexts) on the same argument values         (native oracle)
+use crate::coqfmt::*;
 use crate::out::Out;
-pub const HEADER: &str = "From CC Require Import Base.Prelude.";
-pub fn run(_tier: &str, _seed: u64, _out: &mut Out) {}
+use crate::rng::Rng;
+use ciphercore_base::custom_ops::{run_instantiation_pass, CustomOperation};
+use ciphercore_base::data_types::*;
+use ciphercore_base::data_values::Value;
+use ciphercore_base::evaluators::random_evaluate;
+use ciphercore_base::graphs::{create_context, Context, Graph, Node, Operation};
+use serde_json::{json, Value as J};
+use std::collections::BTreeMap;
+
+pub const HEADER: &str = "From CC Require Import Base.Prelude Base.Scalar Base.Ty Model.Instantiate.";
+
+// ------------------------------------------------------------------------------ catalogue
+/// One grid: the typetag name of a CustomOperationBody and, per field, the values to sweep.
+/// Operations are built through their serde form, which reaches the crate-private ones too.
+struct GridSpec {
+    ty: &'static str,
+    fields: Vec<(&'static str, Vec<J>)>,
+    public: bool,
+}
+
+fn grid(ty: &'static str, public: bool, fields: Vec<(&'static str, Vec<J>)>) -> GridSpec {
+    GridSpec { ty, fields, public }
+}
+
+fn bools() -> Vec<J> {
+    vec![json!(false), json!(true)]
+}
+
+fn catalogue_specs() -> Vec<GridSpec> {
+    let fp = || {
+        let mut v = vec![];
+        for fb in [0u64, 10, 15, 16] {
+            for dbg in [false, true] {
+                v.push(json!({"fractional_bits": fb, "debug": dbg}));
+            }
+        }
+        v
+    };
+    let iters = || vec![json!(1), json!(2), json!(5)];
+    let caps = || vec![json!(10), json!(15), json!(20)];
+    let ids = || vec![json!(0), json!(1), json!(2)];
+    let mut v = vec![
+        grid("Not", true, vec![]),
+        grid("Or", true, vec![]),
+        grid("Mux", true, vec![]),
+        grid("Equal", true, vec![]),
+        grid("NotEqual", true, vec![]),
+    ];
+    for t in ["GreaterThan", "LessThan", "LessThanEqualTo", "GreaterThanEqualTo", "Min", "Max"] {
+        v.push(grid(t, true, vec![("signed_comparison", bools())]));
+    }
+    v.push(grid("BinaryAdd", true, vec![("overflow_bit", bools())]));
+    v.push(grid("BinaryAddTransposed", false, vec![("overflow_bit", bools())]));
+    v.push(grid("Clip2K", true, vec![("k", vec![json!(0), json!(1), json!(2), json!(10), json!(63)])]));
+    v.push(grid("LongDivision", true, vec![("signed", bools())]));
+    v.push(grid("SortByIntegerKey", true, vec![("key", vec![json!("a"), json!("b"), json!("key"), json!("")])]));
+    for t in ["NewtonInversion", "InverseSqrt", "GoldschmidtDivision"] {
+        v.push(grid(t, true, vec![("iterations", iters()), ("denominator_cap_2k", caps())]));
+    }
+    v.push(grid("TaylorExponent", true, vec![("taylor_terms", vec![json!(3), json!(5)]), ("fixed_precision_points", vec![json!(4), json!(10), json!(15)])]));
+    v.push(grid("ApproxExponent", true, vec![("precision", vec![json!(4), json!(10), json!(15)])]));
+    for t in ["ApproxSigmoid", "ApproxGelu", "ApproxGeluDerivative"] {
+        v.push(grid(t, true, vec![("precision", vec![json!(10), json!(15)]), ("approximation_log_buckets", vec![json!(4), json!(5)])]));
+    }
+    v.push(grid("FixedMultiply", true, vec![("config", fp())]));
+    v.push(grid("AucScore", true, vec![("fp", fp())]));
+    v.push(grid("LowMC", true, vec![("s_boxes_per_round", vec![json!(10), json!(20)]), ("rounds", vec![json!(5), json!(20)]), ("block_size", vec![json!("SIZE80"), json!("SIZE128")])]));
+    // crate-private operations of the MPC compiler
+    for t in ["AddMPC", "SubtractMPC", "MultiplyMPC", "DotMPC", "MatmulMPC", "MixedMultiplyMPC", "A2BMPC", "SimpleHash"] {
+        v.push(grid(t, false, vec![]));
+    }
+    v.push(grid("GemmMPC", false, vec![("transpose_a", bools()), ("transpose_b", bools())]));
+    v.push(grid("B2AMPC", false, vec![("st", vec![json!("bit"), json!("u8"), json!("i8"), json!("i32"), json!("u64"), json!("i64"), json!("u128")])]));
+    // TruncateMPC { scale: u128 } is not in the grid: typetag cannot deserialize a u128 field
+    // ("u128 is not supported"), and the struct is private, so it cannot be built from here.
+    v.push(grid("TruncateMPC2K", false, vec![("k", vec![json!(0), json!(1), json!(10), json!(40)])]));
+    v.push(grid("ApplyPermutationMPC", false, vec![("inverse_permutation", bools()), ("reveal_output", bools())]));
+    v.push(grid("RadixSortMPC", false, vec![("key", vec![json!("a"), json!("b"), json!("a, bits_group_size=2")]), ("bits_chunk_size", vec![json!(1), json!(2), json!(3)])]));
+    for t in ["PermutationMPC", "DuplicationMPC", "SwitchingMPC"] {
+        v.push(grid(t, false, vec![("sender_id", ids()), ("programmer_id", ids())]));
+    }
+    v.push(grid("ObliviousTransfer", false, vec![("sender_id", ids()), ("receiver_id", ids())]));
+    v.push(grid("JoinMPC", false, vec![
+        ("join_t", vec![json!("Inner"), json!("Left"), json!("Union"), json!("Full")]),
+        ("headers", vec![json!([["a", "a"]]), json!([["a", "b"]]), json!([["a", "a"], ["b", "b"]]), json!([["a\", \"a", "b"]])]),
+        ("has_column_masks", bools()),
+    ]));
+    v
+}
+
+fn expand(spec: &GridSpec) -> Vec<J> {
+    let mut acc: Vec<serde_json::Map<String, J>> = vec![{
+        let mut m = serde_json::Map::new();
+        m.insert("type".into(), json!(spec.ty));
+        m
+    }];
+    for (f, vals) in &spec.fields {
+        let mut next = vec![];
+        for m in &acc {
+            for v in vals {
+                let mut m2 = m.clone();
+                m2.insert((*f).into(), v.clone());
+                next.push(m2);
+            }
+        }
+        acc = next;
+    }
+    acc.into_iter().map(|m| json!({ "body": J::Object(m) })).collect()
+}
+
+/// Names of the fields (one level of nesting) on which two serde forms of one type differ.
+fn differing_fields(a: &J, b: &J) -> Vec<String> {
+    let mut r = vec![];
+    if let (Some(ma), Some(mb)) = (a["body"].as_object(), b["body"].as_object()) {
+        for (k, va) in ma {
+            let vb = mb.get(k).cloned().unwrap_or(J::Null);
+            if *va != vb {
+                if let (Some(oa), Some(ob)) = (va.as_object(), vb.as_object()) {
+                    for (k2, v2) in oa {
+                        if Some(v2) != ob.get(k2) {
+                            r.push(format!("{}.{}", k, k2));
+                        }
+                    }
+                } else {
+                    r.push(k.clone());
+                }
+            }
+        }
+    }
+    r
+}
+
+fn catalogue(out: &mut Out) -> Vec<(J, CustomOperation, bool)> {
+    let mut ops: Vec<(J, CustomOperation, bool)> = vec![];
+    for spec in catalogue_specs() {
+        for j in expand(&spec) {
+            // from_str, not from_value: serde_json::Value does not carry u128 fields
+            match serde_json::from_str::<CustomOperation>(&j.to_string()) {
+                Ok(op) => {
+                    out.stat(&format!("catalogue:{}", spec.ty));
+                    ops.push((j, op, spec.public));
+                }
+                Err(e) => {
+                    // the grid no longer matches the struct: a broken tie, not a silent skip
+                    out.violation("catalogue-grid-does-not-deserialize", json!({"op": j}), format!("{}", e));
+                }
+            }
+        }
+    }
+    ops
+}
+
+fn check_catalogue(out: &mut Out) {
+    let ops = catalogue(out);
+    out.stat_n("catalogue_ops", ops.len() as u64);
+    out.stat("catalogue-not-swept:TruncateMPC(u128 field, typetag cannot deserialize)");
+    let mut reported: BTreeMap<String, u64> = BTreeMap::new();
+    for i in 0..ops.len() {
+        let ni = ops[i].1.get_name();
+        if ni.contains("::<") {
+            out.violation("name-contains-separator", json!({"op": ops[i].0}), format!("get_name = {:?} contains the separator of Instantiation::get_name", ni));
+        }
+        // serde form round-trips and agrees with PartialEq (the key of the instantiation cache)
+        let back = serde_json::to_value(&ops[i].1).unwrap_or(J::Null);
+        if back != ops[i].0 {
+            out.violation("serde-form-changed", json!({"op": ops[i].0, "back": back}), "serde form of the operation does not round-trip".into());
+        }
+        for j in (i + 1)..ops.len() {
+            let eq = ops[i].1 == ops[j].1;
+            let jeq = ops[i].0 == ops[j].0;
+            if eq != jeq {
+                out.violation("eq-vs-serde", json!({"op1": ops[i].0, "op2": ops[j].0}), format!("PartialEq says {}, serde forms equal {}", eq, jeq));
+                continue;
+            }
+            if eq {
+                continue;
+            }
+            let nj = ops[j].1.get_name();
+            if ni == nj {
+                let t1 = ops[i].0["body"]["type"].as_str().unwrap_or("?").to_string();
+                let t2 = ops[j].0["body"]["type"].as_str().unwrap_or("?").to_string();
+                let class = if t1 == t2 {
+                    format!("name-collision-{}-{}", t1, differing_fields(&ops[i].0, &ops[j].0).join("+"))
+                } else {
+                    format!("name-collision-{}-{}", t1, t2)
+                };
+                let n = reported.entry(class.clone()).or_insert(0);
+                *n += 1;
+                if *n == 1 {
+                    out.violation(&class, json!({"op1": ops[i].0, "op2": ops[j].0, "public": ops[i].2 && ops[j].2}),
+                        format!("different operations, same get_name {:?}", ni));
+                }
+            } else {
+                out.oracle_ok();
+            }
+        }
+    }
+    for (c, n) in reported {
+        out.stat_n(&format!("collision-pairs:{}", c), n);
+    }
+}
+
+// ------------------------------------------------------------------------------ type printing
+/// Type printing is the other half of Instantiation::get_name: distinct argument-type lists
+/// must print differently.  Swept over a pool (pairwise, exhaustive on the pool).
+fn check_type_printing(out: &mut Out, rng: &mut Rng, n: usize) {
+    let mut pool: Vec<Vec<Type>> = vec![];
+    let base = [
+        scalar_type(BIT), scalar_type(INT32), array_type(vec![1], BIT), array_type(vec![1, 1], BIT),
+        array_type(vec![11], BIT), array_type(vec![1, 1], INT32), array_type(vec![2, 3], UINT64),
+        tuple_type(vec![]), tuple_type(vec![scalar_type(BIT)]), tuple_type(vec![scalar_type(BIT), scalar_type(BIT)]),
+        tuple_type(vec![tuple_type(vec![scalar_type(BIT)]), scalar_type(BIT)]),
+        tuple_type(vec![scalar_type(BIT), tuple_type(vec![scalar_type(BIT)])]),
+        vector_type(2, scalar_type(BIT)), vector_type(2, tuple_type(vec![scalar_type(BIT)])),
+        named_tuple_type(vec![("a".into(), scalar_type(BIT))]),
+        named_tuple_type(vec![("a".into(), scalar_type(BIT)), ("b".into(), scalar_type(BIT))]),
+        named_tuple_type(vec![("b".into(), scalar_type(BIT)), ("a".into(), scalar_type(BIT))]),
+    ];
+    for t in base.iter() {
+        pool.push(vec![t.clone()]);
+        pool.push(vec![t.clone(), t.clone()]);
+    }
+    pool.push(vec![]);
+    pool.push(vec![scalar_type(BIT), scalar_type(BIT), scalar_type(BIT)]);
+    while pool.len() < n {
+        let k = 1 + rng.below(3) as usize;
+        pool.push((0..k).map(|_| crate::gen::random_type(rng, 2)).collect());
+    }
+    let show = |ts: &Vec<Type>| ts.iter().map(|t| format!("{t}")).collect::<Vec<_>>().join(", ");
+    let strs: Vec<String> = pool.iter().map(show).collect();
+    for i in 0..pool.len() {
+        // model of the printer, on every list of the pool
+        out.case("ty_str", format!("map ty_str {}", list(&pool[i], |t| ty(t))),
+            list(&pool[i], |t| coq_string(&format!("{t}"))), json!({"types": strs[i]}), pool[i].iter().any(|t| !t.is_scalar()));
+        for j in (i + 1)..pool.len() {
+            if pool[i] != pool[j] {
+                if strs[i] == strs[j] && pool[i].iter().map(no_empty_named).collect::<Vec<_>>() == pool[j].iter().map(no_empty_named).collect::<Vec<_>>() {
+                    // known ambiguity of Display for Type, outside the property's quantifier: no
+                    // library operation takes an empty tuple (see "assumes" in tools/props/C08.json
+                    // and C08_type_printing_not_injective in Props/C08.v); counted, not hidden
+                    out.stat("type-printing:ambiguous-pair:empty-tuple-vs-empty-named-tuple");
+                } else if strs[i] == strs[j] {
+                    out.violation("type-printing-collision", json!({"types1": format!("{:?}", pool[i]), "types2": format!("{:?}", pool[j])}), format!("both print as {:?}", strs[i]));
+                } else {
+                    out.oracle_ok();
+                }
+            }
+        }
+    }
+    out.stat_n("type_lists_compared", pool.len() as u64);
+}
+
+/// The type with every empty named tuple replaced by the empty tuple (both print as "()").
+fn no_empty_named(t: &Type) -> Type {
+    match t {
+        Type::Scalar(_) | Type::Array(_, _) => t.clone(),
+        Type::Vector(n, t1) => vector_type(*n, no_empty_named(t1)),
+        Type::Tuple(ts) => tuple_type(ts.iter().map(|x| no_empty_named(x)).collect()),
+        Type::NamedTuple(fs) if fs.is_empty() => tuple_type(vec![]),
+        Type::NamedTuple(fs) => named_tuple_type(fs.iter().map(|(n, x)| (n.clone(), no_empty_named(x))).collect()),
+    }
+}
+
+/// The two printer ambiguities the model predicts (Props/C08.v), confirmed on the real code.
+fn confirm_printer_ambiguities(out: &mut Out) {
+    let a = named_tuple_type(vec![("a\\\": i32, \\\"b".into(), scalar_type(INT32))]);
+    let b = named_tuple_type(vec![("a".into(), scalar_type(INT32)), ("b".into(), scalar_type(INT32))]);
+    out.stat(&format!("type-printing:quote-in-field-name-collides:{}", a != b && format!("{a}") == format!("{b}")));
+    let (c, d) = (tuple_type(vec![]), named_tuple_type(vec![]));
+    out.stat(&format!("type-printing:empty-tuple-collides:{}", c != d && format!("{c}") == format!("{d}")));
+    out.case("ty_str", format!("map ty_str {}", list(&[a.clone(), b.clone(), c.clone(), d.clone()], |t| ty(t))),
+        list(&[a, b, c, d], |t| coq_string(&format!("{t}"))), json!({"types": "printer ambiguities"}), true);
+}
+
+// ------------------------------------------------------------------------------ export
+fn fnv(s: &str) -> u64 {
+    let mut h: u64 = 0xcbf29ce484222325;
+    for b in s.bytes() {
+        h ^= b as u64;
+        h = h.wrapping_mul(0x100000001b3);
+    }
+    h >> 16 // 48 bits are plenty and keep the terms short
+}
+
+struct Exporter {
+    ops: Vec<CustomOperation>,
+}
+impl Exporter {
+    fn opid(&mut self, op: &CustomOperation) -> usize {
+        if let Some(i) = self.ops.iter().position(|o| o == op) {
+            return i;
+        }
+        self.ops.push(op.clone());
+        self.ops.len() - 1
+    }
+    fn node(&mut self, n: &Node) -> String {
+        let deps = list(&n.get_node_dependencies(), |d| format!("{}%N", d.get_id()));
+        let t = ty(&n.get_type().expect("typed node"));
+        match n.get_operation() {
+            Operation::Input(_) => format!("nI {}", t),
+            Operation::Call => {
+                let g = n.get_graph_dependencies()[0].get_id();
+                format!("nC {}%N {} {}", g, deps, t)
+            }
+            Operation::Custom(op) => format!("nX {}%N {} {}", self.opid(&op), deps, t),
+            op => {
+                let gdeps = list(&n.get_graph_dependencies(), |g| format!("{}%N", g.get_id()));
+                let h = fnv(&serde_json::to_string(&op).unwrap_or_else(|_| format!("{:?}", op)));
+                format!("nP {}%N {} {} {}", h, deps, gdeps, t)
+            }
+        }
+    }
+    fn graph_body(&mut self, g: &Graph) -> String {
+        let nodes: Vec<String> = g.get_nodes().iter().map(|n| self.node(n)).collect();
+        format!("[{}] {}%N", nodes.join("; "), g.get_output_node().expect("output").get_id())
+    }
+    fn context(&mut self, c: &Context) -> String {
+        let gs: Vec<String> = c.get_graphs().iter().map(|g| format!("G {}", self.graph_body(g))).collect();
+        format!("(C [{}] {}%N)", gs.join("; "), c.get_main_graph().expect("main").get_id())
+    }
+}
+
+fn custom_keys(c: &Context) -> Vec<(CustomOperation, Vec<Type>)> {
+    let mut r = vec![];
+    for g in c.get_graphs() {
+        for n in g.get_nodes() {
+            if let Operation::Custom(op) = n.get_operation() {
+                let tys = n.get_node_dependencies().iter().map(|d| d.get_type().unwrap()).collect();
+                r.push((op, tys));
+            }
+        }
+    }
+    r
+}
+
+fn inst_name(op: &CustomOperation, tys: &[Type]) -> String {
+    format!("__{}::<{}>", op.get_name(), tys.iter().map(|t| format!("{t}")).collect::<Vec<_>>().join(", "))
+}
+
+/// Catalogue table of a case: every instantiation reachable from the context (a plain
+/// closure, no order), its body as exported term, and the number of graphs of the body.
+struct Table {
+    entries: Vec<String>,
+    sizes: BTreeMap<String, u64>,
+    nkeys: usize,
+    nested: usize,
+    nodes: usize,
+}
+
+fn export_table(ex: &mut Exporter, c: &Context) -> Table {
+    let mut keys: Vec<(CustomOperation, Vec<Type>)> = vec![];
+    let mut work = custom_keys(c);
+    let mut t = Table { entries: vec![], sizes: BTreeMap::new(), nkeys: 0, nested: 0, nodes: 0 };
+    let top = work.len();
+    let mut seen_top = 0usize;
+    while !work.is_empty() {
+        let k = work.remove(0);
+        seen_top += 1;
+        if keys.iter().any(|k2| k2.0 == k.0 && k2.1 == k.1) {
+            continue;
+        }
+        keys.push(k.clone());
+        if seen_top > top {
+            t.nested += 1;
+        }
+        let fake = create_context().unwrap();
+        let id = ex.opid(&k.0);
+        let keystr = format!("({}%N, {})", id, list(&k.1, |x| ty(x)));
+        let (op, tys) = (k.0.clone(), k.1.clone());
+        let f2 = fake.clone();
+        match observe(std::panic::AssertUnwindSafe(move || op.instantiate(f2, tys))) {
+            Outcome::Ok(g) => {
+                g.set_as_main().unwrap();
+                t.sizes.insert(inst_name(&k.0, &k.1), fake.get_graphs().len() as u64);
+                t.nodes += fake.get_graphs().iter().map(|g| g.get_nodes().len()).sum::<usize>();
+                let body = ex.context(&fake);
+                t.entries.push(format!("({}, Ok {})", keystr, body));
+                work.extend(custom_keys(&fake));
+            }
+            Outcome::Err => t.entries.push(format!("({}, Err)", keystr)),
+            Outcome::Panic => t.entries.push(format!("({}, Panic)", keystr)),
+        }
+    }
+    t.nkeys = keys.len();
+    t
+}
+
+// ------------------------------------------------------------------------------ plans
+#[derive(Clone)]
+enum Step {
+    Input(Type),
+    Custom(CustomOperation, Vec<usize>),
+    Prim(Operation, Vec<usize>),
+    Call(usize, Vec<usize>),
+}
+#[derive(Clone)]
+struct PGraph {
+    steps: Vec<Step>,
+    types: Vec<Type>,
+    /// main graph: output = tuple of all non-input steps; callee: output = last step
+    main: bool,
+}
+
+fn cop(j: J) -> CustomOperation {
+    serde_json::from_value::<CustomOperation>(json!({ "body": j })).expect("operation of the plan pool")
+}
+
+fn is_bits(t: &Type) -> bool {
+    t.is_array() && t.get_scalar_type() == BIT
+}
+fn is_i64(t: &Type) -> bool {
+    t.is_array() && t.get_scalar_type() == INT64
+}
+
+/// Picks a custom operation and arguments among the steps so far; None if nothing fits.
+fn pick_custom(pg: &PGraph, rng: &mut Rng, heavy: bool) -> Option<(CustomOperation, Vec<usize>)> {
+    let bits: Vec<usize> = (0..pg.types.len()).filter(|&i| is_bits(&pg.types[i])).collect();
+    let i64s: Vec<usize> = (0..pg.types.len()).filter(|&i| is_i64(&pg.types[i])).collect();
+    let named: Vec<usize> = (0..pg.types.len()).filter(|&i| pg.types[i].is_named_tuple()).collect();
+    let b = rng.chance(1, 2);
+    let same_as = |i: usize, pool: &Vec<usize>, rng: &mut Rng| -> usize {
+        let c: Vec<usize> = pool.iter().cloned().filter(|&j| pg.types[j] == pg.types[i]).collect();
+        *rng.pick(&c)
+    };
+    for _ in 0..8 {
+        let choice = rng.below(if heavy { 16 } else { 11 });
+        match choice {
+            0 if !bits.is_empty() => return Some((cop(json!({"type":"Not"})), vec![*rng.pick(&bits)])),
+            1 if !bits.is_empty() => {
+                let i = *rng.pick(&bits);
+                return Some((cop(json!({"type":"Or"})), vec![i, same_as(i, &bits, rng)]));
+            }
+            2 | 3 if !bits.is_empty() => {
+                let i = *rng.pick(&bits);
+                let t = *rng.pick(&["GreaterThan", "LessThan", "LessThanEqualTo", "GreaterThanEqualTo"]);
+                return Some((cop(json!({"type": t, "signed_comparison": b})), vec![i, same_as(i, &bits, rng)]));
+            }
+            4 if !bits.is_empty() => {
+                let i = *rng.pick(&bits);
+                let t = *rng.pick(&["Equal", "NotEqual"]);
+                return Some((cop(json!({"type": t})), vec![i, same_as(i, &bits, rng)]));
+            }
+            5 | 6 if !bits.is_empty() => {
+                let i = *rng.pick(&bits);
+                let t = *rng.pick(&["Min", "Max"]);
+                return Some((cop(json!({"type": t, "signed_comparison": b})), vec![i, same_as(i, &bits, rng)]));
+            }
+            7 if !bits.is_empty() => {
+                let i = *rng.pick(&bits);
+                return Some((cop(json!({"type":"BinaryAdd", "overflow_bit": false})), vec![i, same_as(i, &bits, rng)]));
+            }
+            8 if !bits.is_empty() => {
+                // Mux(flag, x, y): flag = any bit array broadcastable to x; use x itself as flag
+                let i = *rng.pick(&bits);
+                return Some((cop(json!({"type":"Mux"})), vec![i, same_as(i, &bits, rng), same_as(i, &bits, rng)]));
+            }
+            9 if !bits.is_empty() => {
+                let i = *rng.pick(&bits);
+                return Some((cop(json!({"type":"Clip2K", "k": 1 + rng.below(2)})), vec![i]));
+            }
+            10 if !i64s.is_empty() => {
+                let i = *rng.pick(&i64s);
+                let fb = *rng.pick(&[10u64, 15]);
+                return Some((cop(json!({"type":"FixedMultiply", "config": {"fractional_bits": fb, "debug": false}})), vec![i, same_as(i, &i64s, rng)]));
+            }
+            11 if !i64s.is_empty() => {
+                let i = *rng.pick(&i64s);
+                let p = *rng.pick(&[10u64, 15]);
+                let t = *rng.pick(&["ApproxSigmoid", "ApproxGelu", "ApproxGeluDerivative"]);
+                return Some((cop(json!({"type": t, "precision": p, "approximation_log_buckets": 4})), vec![i]));
+            }
+            12 if !i64s.is_empty() => {
+                let i = *rng.pick(&i64s);
+                return Some((cop(json!({"type":"ApproxExponent", "precision": *rng.pick(&[10u64, 15])})), vec![i]));
+            }
+            13 if !i64s.is_empty() => {
+                let i = *rng.pick(&i64s);
+                let t = *rng.pick(&["NewtonInversion", "InverseSqrt"]);
+                return Some((cop(json!({"type": t, "iterations": 1 + rng.below(2), "denominator_cap_2k": 10})), vec![i]));
+            }
+            14 if !named.is_empty() => {
+                let i = *rng.pick(&named);
+                let key = rng.pick(&["a", "b"]).to_string();
+                return Some((cop(json!({"type":"SortByIntegerKey", "key": key})), vec![i]));
+            }
+            15 if !i64s.is_empty() => {
+                let i = *rng.pick(&i64s);
+                return Some((cop(json!({"type":"LongDivision", "signed": b})), vec![i, same_as(i, &i64s, rng)]));
+            }
+            _ => {}
+        }
+    }
+    None
+}
+
+const INPUT_BITS: [&[u64]; 5] = [&[4], &[2, 4], &[8], &[3, 8], &[1]];
+
+fn gen_plan(rng: &mut Rng, heavy: bool) -> Vec<PGraph> {
+    let ngraphs = 1 + rng.below(3) as usize;
+    let mut plan: Vec<PGraph> = vec![];
+    for gi in 0..ngraphs {
+        let main = gi == ngraphs - 1;
+        let mut pg = PGraph { steps: vec![], types: vec![], main };
+        // inputs: a few bit arrays (repeated shapes so that instantiations repeat), sometimes integers
+        let nin = 2 + rng.below(3) as usize;
+        let shape_a = rng.pick(&INPUT_BITS).to_vec();
+        // a later graph often repeats the inputs of an older one, so that it can call it
+        let copy_from: Vec<Type> = if gi > 0 && rng.chance(2, 3) {
+            plan[rng.below(gi as u64) as usize].steps.iter().filter_map(|s| if let Step::Input(t) = s { Some(t.clone()) } else { None }).collect()
+        } else {
+            vec![]
+        };
+        for t in copy_from {
+            pg.steps.push(Step::Input(t.clone()));
+            pg.types.push(t);
+        }
+        for k in 0..nin {
+            let t = if heavy && rng.chance(1, 3) {
+                array_type(vec![2], INT64)
+            } else if heavy && rng.chance(1, 6) {
+                named_tuple_type(vec![("a".into(), array_type(vec![3], UINT8)), ("b".into(), array_type(vec![3], INT16))])
+            } else if rng.chance(1, 5) {
+                array_type(vec![2], *rng.pick(&[UINT8, INT16, INT64]))
+            } else if k < 2 || rng.chance(1, 2) {
+                array_type(shape_a.clone(), BIT)
+            } else {
+                array_type(rng.pick(&INPUT_BITS).to_vec(), BIT)
+            };
+            pg.steps.push(Step::Input(t.clone()));
+            pg.types.push(t);
+        }
+        let nsteps = 2 + rng.below(if main { 7 } else { 4 }) as usize;
+        for _ in 0..nsteps {
+            // build the candidate on the real API to learn its type; keep it only if it type-checks
+            let cand: Option<Step> = match rng.below(10) {
+                0 => {
+                    let ints: Vec<usize> = (0..pg.types.len()).filter(|&i| pg.types[i].is_array() && pg.types[i].get_scalar_type() != BIT).collect();
+                    if ints.is_empty() { None } else { Some(Step::Prim(Operation::A2B, vec![*rng.pick(&ints)])) }
+                }
+                1 => {
+                    let bits: Vec<usize> = (0..pg.types.len()).filter(|&i| is_bits(&pg.types[i])).collect();
+                    if bits.is_empty() { None } else {
+                        let i = *rng.pick(&bits);
+                        let c: Vec<usize> = bits.iter().cloned().filter(|&j| pg.types[j] == pg.types[i]).collect();
+                        let op = if rng.chance(1, 2) { Operation::Add } else { Operation::Multiply };
+                        Some(Step::Prim(op, vec![i, *rng.pick(&c)]))
+                    }
+                }
+                2 | 3 if gi > 0 => {
+                    // call an older graph with arguments of its input types, if available
+                    let callee = rng.below(gi as u64) as usize;
+                    let want: Vec<Type> = plan[callee].steps.iter().filter_map(|s| if let Step::Input(t) = s { Some(t.clone()) } else { None }).collect();
+                    let mut args = vec![];
+                    for w in &want {
+                        let c: Vec<usize> = (0..pg.types.len()).filter(|&j| pg.types[j] == *w).collect();
+                        if c.is_empty() { break; }
+                        args.push(*rng.pick(&c));
+                    }
+                    if args.len() == want.len() { Some(Step::Call(callee, args)) } else { None }
+                }
+                _ => pick_custom(&pg, rng, heavy).map(|(op, a)| Step::Custom(op, a)),
+            };
+            if let Some(s) = cand {
+                if let Some(t) = step_type(&plan, &pg, &s) {
+                    pg.steps.push(s);
+                    pg.types.push(t);
+                }
+            }
+        }
+        if !pg.steps.iter().any(|s| !matches!(s, Step::Input(_))) {
+            // make sure every graph computes something
+            pg.steps.push(Step::Prim(Operation::Add, vec![0, 0]));
+            pg.types.push(pg.types[0].clone());
+        }
+        plan.push(pg);
+    }
+    plan
+}
+
+/// Type of a candidate step = type of a one-step graph built on the real API (None if rejected).
+fn step_type(plan: &[PGraph], pg: &PGraph, s: &Step) -> Option<Type> {
+    let args = match s {
+        Step::Input(t) => return Some(t.clone()),
+        Step::Custom(_, a) | Step::Prim(_, a) | Step::Call(_, a) => a.clone(),
+    };
+    let tys: Vec<Type> = args.iter().map(|&i| pg.types[i].clone()).collect();
+    // the context must stay alive while its nodes are read (nodes hold weak pointers)
+    let (c, _g, n) = single_step_context(plan, s, &tys)?;
+    let t = n.get_type().ok();
+    drop(c);
+    t
+}
+
+/// A context computing one step on fresh inputs of the given types.
+fn single_step_context(plan: &[PGraph], s: &Step, tys: &[Type]) -> Option<(Context, Graph, Node)> {
+    let c = create_context().ok()?;
+    let callee = if let Step::Call(k, _) = s { Some(build_graphs(&c, &plan[..=*k])?.pop()?) } else { None };
+    let g = c.create_graph().ok()?;
+    let ins: Vec<Node> = tys.iter().map(|t| g.input(t.clone())).collect::<Result<_, _>>().ok()?;
+    let n = match s {
+        Step::Input(_) => return None,
+        Step::Custom(op, _) => g.custom_op(op.clone(), ins).ok()?,
+        Step::Prim(op, _) => g.add_node(ins, vec![], op.clone()).ok()?,
+        Step::Call(_, _) => g.call(callee?, ins).ok()?,
+    };
+    n.set_as_output().ok()?;
+    g.finalize().ok()?;
+    g.set_as_main().ok()?;
+    c.finalize().ok()?;
+    Some((c, g, n))
+}
+
+/// Builds the graphs of a plan into `c` (not finalized as a context); returns them in order.
+fn build_graphs(c: &Context, plan: &[PGraph]) -> Option<Vec<Graph>> {
+    let mut gs: Vec<Graph> = vec![];
+    for pg in plan {
+        let g = c.create_graph().ok()?;
+        let mut nodes: Vec<Node> = vec![];
+        for s in &pg.steps {
+            let a = |ix: &Vec<usize>| ix.iter().map(|&i| nodes[i].clone()).collect::<Vec<Node>>();
+            let n = match s {
+                Step::Input(t) => g.input(t.clone()).ok()?,
+                Step::Custom(op, ix) => g.custom_op(op.clone(), a(ix)).ok()?,
+                Step::Prim(op, ix) => g.add_node(a(ix), vec![], op.clone()).ok()?,
+                Step::Call(k, ix) => g.call(gs[*k].clone(), a(ix)).ok()?,
+            };
+            nodes.push(n);
+        }
+        let outn = if pg.main {
+            let obs: Vec<Node> = (0..nodes.len()).filter(|&i| !matches!(pg.steps[i], Step::Input(_))).map(|i| nodes[i].clone()).collect();
+            g.create_tuple(obs).ok()?
+        } else {
+            nodes.last()?.clone()
+        };
+        outn.set_as_output().ok()?;
+        g.finalize().ok()?;
+        gs.push(g);
+    }
+    Some(gs)
+}
+
+fn build_context(plan: &[PGraph]) -> Option<Context> {
+    let c = create_context().ok()?;
+    let gs = build_graphs(&c, plan)?;
+    gs.last()?.set_as_main().ok()?;
+    c.finalize().ok()?;
+    Some(c)
+}
+
+// ------------------------------------------------------------------------------ values
+fn rand_value(t: &Type, rng: &mut Rng) -> Value {
+    match t {
+        Type::Scalar(st) => Value::from_scalar(rand_elem(*st, rng), *st).unwrap(),
+        Type::Array(sh, st) => {
+            let n: u64 = sh.iter().product();
+            let xs: Vec<i128> = (0..n).map(|_| rand_elem(*st, rng)).collect();
+            Value::from_flattened_array(&xs, *st).unwrap()
+        }
+        Type::Vector(n, t1) => Value::from_vector((0..*n).map(|_| rand_value(t1, rng)).collect()),
+        Type::Tuple(ts) => Value::from_vector(ts.iter().map(|t1| rand_value(t1, rng)).collect()),
+        Type::NamedTuple(fs) => Value::from_vector(fs.iter().map(|(_, t1)| rand_value(t1, rng)).collect()),
+    }
+}
+fn rand_elem(st: ScalarType, rng: &mut Rng) -> i128 {
+    if st == BIT {
+        return rng.below(2) as i128;
+    }
+    let w = st.size_in_bits() as u32;
+    let span = std::cmp::min(w - 1, 20);
+    let x = rng.below(1u64 << span) as i128;
+    if st.is_signed() && rng.chance(1, 3) { -x } else { x }
+}
+
+/// Step-by-step evaluation of a plan graph: every custom / primitive / call step is evaluated
+/// on its own context (instantiated on its own) on the values of its arguments.
+fn eval_plan_graph(plan: &[PGraph], gi: usize, inputs: &[Value]) -> Result<Vec<Value>, String> {
+    let pg = &plan[gi];
+    let mut vals: Vec<Value> = vec![];
+    let mut next_in = 0usize;
+    for (si, s) in pg.steps.iter().enumerate() {
+        let v = match s {
+            Step::Input(_) => {
+                next_in += 1;
+                inputs[next_in - 1].clone()
+            }
+            Step::Call(k, ix) => {
+                let a: Vec<Value> = ix.iter().map(|&i| vals[i].clone()).collect();
+                let r = eval_plan_graph(plan, *k, &a)?;
+                r.last().cloned().ok_or("empty callee")?
+            }
+            Step::Custom(_, ix) | Step::Prim(_, ix) => {
+                let tys: Vec<Type> = ix.iter().map(|&i| pg.types[i].clone()).collect();
+                let a: Vec<Value> = ix.iter().map(|&i| vals[i].clone()).collect();
+                let (c, _, _) = single_step_context(plan, s, &tys).ok_or(format!("step {} does not build alone", si))?;
+                let m = run_instantiation_pass(c).map_err(|e| format!("step {} alone: pass failed: {}", si, e))?;
+                random_evaluate(m.get_context().get_main_graph().unwrap(), a).map_err(|e| format!("step {} alone: evaluation failed: {}", si, e))?
+            }
+        };
+        vals.push(v);
+    }
+    Ok(vals)
+}
+
+fn step_name(s: &Step) -> String {
+    match s {
+        Step::Input(_) => "Input".into(),
+        Step::Custom(op, _) => op.get_name(),
+        Step::Prim(op, _) => format!("{:?}", op),
+        Step::Call(k, _) => format!("Call(g{})", k),
+    }
+}
+
+// ------------------------------------------------------------------------------ one case
+/// `fail_class`: violation class to report if the pass fails (witness plans of a catalogue
+/// collision report under the class of that collision).
+fn run_case(plan: &[PGraph], label: &str, fail_class: Option<&str>, rng: &mut Rng, out: &mut Out) {
+    let c = match build_context(plan) {
+        Some(c) => c,
+        None => {
+            out.stat("plan:not-built");
+            return;
+        }
+    };
+    let mut ex = Exporter { ops: vec![] };
+    let src = ex.context(&c);
+    let table = export_table(&mut ex, &c);
+    let ncustom = custom_keys(&c).len();
+    let names_tbl = list(&ex.ops.iter().enumerate().collect::<Vec<_>>(), |(i, op)| format!("({}%N, {})", i, coq_string(&op.get_name())));
+    let tbl = format!("[{}]", table.entries.join("; "));
+    let input = json!({
+        "label": label,
+        "graphs": plan.iter().map(|pg| pg.steps.iter().map(step_name).collect::<Vec<_>>()).collect::<Vec<_>>(),
+        "custom_nodes": ncustom, "instantiations": table.nkeys, "nested_instantiations": table.nested,
+    });
+    out.stat(&format!("custom_nodes:{}", std::cmp::min(ncustom, 8)));
+    out.stat(&format!("instantiations:{}", std::cmp::min(table.nkeys, 12)));
+    out.stat(&format!("graphs:{}", plan.len()));
+    out.stat_n("catalogue_nodes_exported", table.nodes as u64);
+    for s in plan.iter().flat_map(|pg| pg.steps.iter()) {
+        if !matches!(s, Step::Input(_)) {
+            out.stat(&format!("step:{}", step_name(s).split('(').next().unwrap_or("")));
+        }
+    }
+    let c2 = c.clone();
+    let r = observe(std::panic::AssertUnwindSafe(move || run_instantiation_pass(c2)));
+    out.stat(&format!("pass:{}", r.tag()));
+    let nontrivial = table.nested > 0 && (ncustom > table.nkeys - table.nested || plan.len() > 1);
+    // ---- (2) structure
+    let mut names: Vec<String> = vec![];
+    let rhs = match &r {
+        Outcome::Ok(m) => {
+            let rc = m.get_context();
+            let mut ex2 = Exporter { ops: ex.ops.clone() };
+            let mut sizes = vec![];
+            let mut gs = vec![];
+            let mut ok = true;
+            for g in rc.get_graphs() {
+                let nm = g.get_name().ok();
+                if let Some(n) = &nm {
+                    names.push(n.clone());
+                    match table.sizes.get(n) {
+                        Some(sz) => sizes.push(format!("({}, {}%N)", coq_string(n), sz)),
+                        None => {
+                            ok = false;
+                            out.violation("unknown-graph-name", input.clone(), format!("graph named {:?} is no instantiation reachable from the context", n));
+                        }
+                    }
+                }
+                gs.push(format!("R {} {}", match &nm { Some(n) => format!("(Some {})", coq_string(n)), None => "None".into() }, ex2.graph_body(&g)));
+                if ex2.ops.len() != ex.ops.len() {
+                    ok = false;
+                    out.violation("custom-node-left", input.clone(), "a custom node remains after the pass".into());
+                }
+            }
+            if !ok {
+                return;
+            }
+            format!("rust_obs [{}] [{}] {}%N", sizes.join("; "), gs.join("; "), rc.get_main_graph().unwrap().get_id())
+        }
+        Outcome::Err => "Err".to_string(),
+        Outcome::Panic => "Panic".to_string(),
+    };
+    out.case("pass", format!("pass_obs {} {} {}", tbl, names_tbl, src), rhs, input.clone(), nontrivial);
+    if let Outcome::Ok(m) = &r {
+        names.sort();
+        out.case("pass_names", format!("pass_names {} {} {}", tbl, names_tbl, src), format!("Ok {}", list(&names, |n| coq_string(n))), input.clone(), nontrivial);
+        out.case("T:keys_injective", format!("keys_inj_check {} {} {}", tbl, names_tbl, src), "Ok true".into(), input.clone(), nontrivial);
+        // oracle: no two graphs of the result share a name; one named graph per instantiation
+        let mut d = names.clone();
+        d.dedup();
+        if d.len() != names.len() || names.len() != table.nkeys {
+            out.violation("instantiation-graphs-mismatch", input.clone(), format!("{} named graphs for {} instantiations", names.len(), table.nkeys));
+        } else {
+            out.oracle_ok();
+        }
+        // ---- (3) semantics
+        let main = plan.len() - 1;
+        let inputs: Vec<Value> = plan[main].steps.iter().filter_map(|s| if let Step::Input(t) = s { Some(rand_value(t, rng)) } else { None }).collect();
+        let whole = random_evaluate(m.get_context().get_main_graph().unwrap(), inputs.clone());
+        let steps = eval_plan_graph(plan, main, &inputs);
+        match (whole, steps) {
+            (Ok(w), Ok(vs)) => {
+                let obs: Vec<Value> = (0..vs.len()).filter(|&i| !matches!(plan[main].steps[i], Step::Input(_))).map(|i| vs[i].clone()).collect();
+                let idx: Vec<usize> = (0..vs.len()).filter(|&i| !matches!(plan[main].steps[i], Step::Input(_))).collect();
+                let wv = w.to_vector().unwrap_or_default();
+                if wv.len() != obs.len() {
+                    out.violation("sem-arity", input.clone(), format!("{} values for {} steps", wv.len(), obs.len()));
+                }
+                for (k, (a, b)) in wv.iter().zip(obs.iter()).enumerate() {
+                    if bvalue(a) != bvalue(b) {
+                        out.violation(&format!("sem-mismatch-{}", step_name(&plan[main].steps[idx[k]]).split('(').next().unwrap_or("")), input.clone(),
+                            format!("step {}: instantiated context gives {}, the step on its own gives {}", idx[k], bvalue(a), bvalue(b)));
+                        break;
+                    } else {
+                        out.oracle_ok();
+                    }
+                }
+            }
+            (Err(_), Err(_)) => out.stat("sem:both-fail"),
+            (Ok(_), Err(e)) => out.violation("sem-step-fails-alone", input.clone(), e),
+            (Err(e), Ok(_)) => out.violation("sem-whole-fails", input.clone(), format!("{}", e)),
+        }
+    } else {
+        // oracle: a context whose nodes type-check must instantiate
+        out.violation(fail_class.unwrap_or("pass-fails-on-typed-context"), input.clone(), "run_instantiation_pass failed on a context whose nodes type-check".into());
+    }
+}
+
+fn mk_plan(steps: Vec<Step>) -> Vec<PGraph> {
+    let plan0: Vec<PGraph> = vec![];
+    let mut pg = PGraph { steps: vec![], types: vec![], main: true };
+    for s in steps {
+        let t = step_type(&plan0, &pg, &s).expect("fixed plan type-checks");
+        pg.steps.push(s);
+        pg.types.push(t);
+    }
+    vec![pg]
+}
+
+/// For every colliding pair of the catalogue whose two operations accept one i64 array (or two):
+/// a context using both on the same argument types.  If the names collide the pass fails on it.
+fn witness_plans() -> Vec<(String, String, Vec<PGraph>)> {
+    let x = array_type(vec![2], INT64);
+    let mut v = vec![];
+    for t in ["ApproxSigmoid", "ApproxGelu", "ApproxGeluDerivative"] {
+        v.push((format!("witness-{}", t), format!("name-collision-{}-approximation_log_buckets", t), mk_plan(vec![
+            Step::Input(x.clone()),
+            Step::Custom(cop(json!({"type": t, "precision": 10, "approximation_log_buckets": 4})), vec![0]),
+            Step::Custom(cop(json!({"type": t, "precision": 10, "approximation_log_buckets": 5})), vec![0]),
+        ])));
+    }
+    v.push(("witness-FixedMultiply".into(), "name-collision-FixedMultiply-config.debug".into(), mk_plan(vec![
+        Step::Input(x.clone()), Step::Input(x.clone()),
+        Step::Custom(cop(json!({"type":"FixedMultiply", "config": {"fractional_bits": 10, "debug": false}})), vec![0, 1]),
+        Step::Custom(cop(json!({"type":"FixedMultiply", "config": {"fractional_bits": 10, "debug": true}})), vec![0, 1]),
+    ])));
+    v
+}
+
+/// Hand-made plans: the shapes the generator must not miss.
+fn fixed_plans() -> Vec<(String, Vec<PGraph>)> {
+    let b = |sh: &[u64]| array_type(sh.to_vec(), BIT);
+    let mk = mk_plan;
+    let gt = |s: bool| cop(json!({"type":"GreaterThan","signed_comparison": s}));
+    let mn = |s: bool| cop(json!({"type":"Min","signed_comparison": s}));
+    let sort = |k: &str| cop(json!({"type":"SortByIntegerKey","key": k}));
+    let nt = named_tuple_type(vec![("a".into(), array_type(vec![3], UINT8)), ("b".into(), array_type(vec![3], INT16))]);
+    vec![
+        // both signedness of one comparison on one type; Min (uses GreaterThan + Mux) sharing them
+        ("signedness".into(), mk(vec![Step::Input(b(&[2, 8])), Step::Input(b(&[2, 8])),
+            Step::Custom(gt(false), vec![0, 1]), Step::Custom(gt(true), vec![0, 1]),
+            Step::Custom(mn(false), vec![0, 1]), Step::Custom(mn(true), vec![0, 1]), Step::Custom(mn(true), vec![1, 0])])),
+        // the repaired defect: two sort keys on one named-tuple type
+        ("sort-keys".into(), mk(vec![Step::Input(nt.clone()), Step::Custom(sort("a"), vec![0]), Step::Custom(sort("b"), vec![0])])),
+        // Or -> Not at two types, Not also used directly
+        ("or-not".into(), mk(vec![Step::Input(b(&[1, 7])), Step::Input(b(&[3, 7])),
+            Step::Custom(cop(json!({"type":"Or"})), vec![0, 1]), Step::Custom(cop(json!({"type":"Not"})), vec![1]),
+            Step::Custom(cop(json!({"type":"Not"})), vec![0])])),
+        // clip parameters
+        ("clip-k".into(), mk(vec![Step::Input(b(&[2, 8])), Step::Custom(cop(json!({"type":"Clip2K","k":1})), vec![0]),
+            Step::Custom(cop(json!({"type":"Clip2K","k":2})), vec![0]), Step::Custom(cop(json!({"type":"Clip2K","k":1})), vec![2])])),
+    ]
+}
+
+pub fn run(tier: &str, seed: u64, out: &mut Out) {
+    let mut rng = Rng::new(seed ^ 0xC08);
+    if std::env::var("VERIF_C08_DEBUG").is_ok() {
+        std::panic::set_hook(Box::new(|i| eprintln!("{}", i)));
+    }
+    // (1) exhaustive on the grid, every run
+    check_catalogue(out);
+    check_type_printing(out, &mut rng, if tier == "quick" { 60 } else { 160 });
+    confirm_printer_ambiguities(out);
+    if tier == "search" {
+        return;
+    }
+    // (2)+(3)
+    for (label, plan) in fixed_plans() {
+        run_case(&plan, &label, None, &mut rng, out);
+    }
+    for (label, class, plan) in witness_plans() {
+        run_case(&plan, &label, Some(&class), &mut rng, out);
+    }
+    let (light, heavy) = match tier {
+        "thorough" => (220, 40),
+        _ => (22, 4),
+    };
+    for i in 0..light {
+        let plan = gen_plan(&mut rng, false);
+        run_case(&plan, &format!("gen{}", i), None, &mut rng, out);
+    }
+    for i in 0..heavy {
+        let plan = gen_plan(&mut rng, true);
+        run_case(&plan, &format!("heavy{}", i), None, &mut rng, out);
+    }
+}
